@@ -15,7 +15,7 @@ The model of values is the code as repaired by fixes/C36.diff (see findings/C36.
 
 Table / MatrixTable level: coq/theories/Typing/TableModel.v — [telab]: what the Table / MatrixTable methods report (row / key /
 globals / col / entry types, built from the dtypes they DECLARE, among them the dtype Table._index declares for a lookup) and
-which relational IR they emit (TableRange, TableKeyBy, TableMapRows, TableMapGlobals, TableFilter, TableOrderBy, TableLeftJoinRightDistinct,
+which relational IR they emit (TableRange, TableKeyBy, TableMapRows, TableMapGlobals, TableFilter, TableOrderBy, TableUnion, TableLeftJoinRightDistinct,
 TableIntervalJoin with its product flag, MatrixRows/Cols/EntriesTable, MatrixRead of a range, MatrixMapRows/Cols/Entries/Globals,
 MatrixKeyRowsBy, MatrixAnnotateRowsTable with its product flag); [strict_type]: the engine's typ of these nodes (TableIR.scala /
 MatrixIR.scala, the assertions of TypeCheck.scala and of the TableType / MatrixType constructors), every value IR re-typed from
@@ -56,7 +56,8 @@ META = dict(
                'strict IR typing rules (all operand types agree: the front end inserted every conversion); (2) for EVERY Python value '
                'built from None/bool/int/float/str/list/tuple/Struct: if impute_type gives a type, the value satisfies it (ranges, '
                'struct fields, tuple lengths, recursively); (3) for EVERY Table / MatrixTable program over range_table, key_by(names), '
-               'annotate, select(names), drop(names), annotate_globals, filter, order_by(names, ascending / descending), annotate with ONE lookup r.index(k1.., all_matches) by '
+               'annotate, select(names), drop(names), annotate_globals, filter, order_by(names, ascending / descending), union of two tables '
+               '(unify=False; unify=True on tables with the same value field names: re-ordering and numeric promotion), annotate with ONE lookup r.index(k1.., all_matches) by '
                'non-key expressions (TableLeftJoinRightDistinct on exact key types; TableIntervalJoin with product = all_matches for an '
                'interval key indexed by a point), rows()/cols()/entries(), range_matrix_table, annotate_rows/_cols/_entries/_globals, '
                'key_rows_by/key_cols_by(names), annotate_rows with ONE lookup into an interval-keyed table (MatrixAnnotateRowsTable with '
@@ -67,14 +68,19 @@ META = dict(
                'from scratch in the environment its node binds (C36_table_type_agreement_partial, C36_telab_sound); the unguarded '
                'statement is refuted by two concrete programs (C36_table_type_agreement_refuted, C36_table_type_agreement_full_fails). '
                'The models agree with the real front end on every generated case they cover.',
-    level_note='Partial. Table level: the theorem is guarded (two open findings: a matrix-row lookup into a table whose compound key starts '
+    level_note='Partial. Table level: the theorem is guarded (three open findings: union(unify=True) of tables whose value types coincide but '
+               'whose key field sits at another row position is sent as a TableUnion of differently ordered rows; a matrix-row lookup into a table whose compound key starts '
                'with an interval, or whose point type is not the type of the matrix\'s first row key field, is accepted and typed by the '
                'front end but its MatrixAnnotateRowsTable fails the engine\'s TypeCheck). In [telab] the facts the front end has by '
                'construction (generated names are fresh; key fields survive annotate/select/drop; the re-keyed join table\'s key fields have '
                'the key expressions\' dtypes) are boolean tests on the computed types, not proved invariants: the run reports a '
                'disagreement if the model rejects a program the real front end accepts. Checked on the implementation only (oracle: real '
                'tir.typ, deep recomputation, independent Python strict checker, lookup dtype = join field type; NOT in the Coq model): '
-               'order_by with computed sort expressions, '
+               'order_by with computed sort expressions, union of three or more tables and union(unify=True) with fields missing from a table '
+               '(NA), Table.join inner/left/right/outer (TableJoin), semi_join / anti_join (filter over a TableLeftJoinRightDistinct with IsNA), '
+               'a downstream aggregation group_by(key).aggregate(s = hl.agg.sum(field)) (TableKeyByAndAggregate, ApplyAggOp Sum) whose dtype '
+               'must be the strict type of the aggregated field; in PUnion the equality of the two selected row types is a boolean test '
+               'of the model (true by construction of unify_exprs), not a proved fact; '
                'lookups by the key fields themselves (no re-keying, key prefixes), MatrixTable row/col lookups into point-keyed tables '
                '(MatrixAnnotateRowsTable/ColsTable by key), index_rows/index_cols/index_entries from a table, Table.join (TableJoin), '
                'key_by with computed keys, filter with a lookup, several lookups in one operation. Outside both: all_matches on a point '
@@ -90,12 +96,12 @@ META = dict(
     strict_rules='Relational nodes the table language can emit, each with an independent strict rule transcribed from the SCALA side (file:line '
                  'in the header comment of Typing/TableModel.v), never from the Python _compute_type. In Coq (strict_type) AND in the Python '
                  'checker (c36_tlang.strict_rel): TableRange, TableKeyBy, TableMapRows, TableMapGlobals, TableFilter, TableOrderBy (key = [], '
-                 'TableIR.scala:2593), TableLeftJoinRightDistinct, TableIntervalJoin (product), MatrixRowsTable, MatrixColsTable, '
+                 'TableIR.scala:2593), TableUnion (two children in Coq, n-ary in Python; TypeCheck.scala:686-688), TableLeftJoinRightDistinct, TableIntervalJoin (product), MatrixRowsTable, MatrixColsTable, '
                  'MatrixEntriesTable, MatrixRead(MatrixRangeReader), MatrixMapRows, MatrixMapCols (new key), MatrixMapEntries, MatrixMapGlobals, '
-                 'MatrixKeyRowsBy, MatrixAnnotateRowsTable (product). Python checker only: TableJoin (TableIR.scala:2267, TypeCheck:621), '
+                 'MatrixKeyRowsBy, MatrixAnnotateRowsTable (product). Python checker only: TableJoin (TableIR.scala:2267, TypeCheck:621), TableKeyByAndAggregate (TableIR.scala:2542-2545), '
                  'MatrixAnnotateColsTable (MatrixIR.scala:760, TypeCheck:698, LowerMatrixIR.scala:236). Emitted by some programs of the '
                  'language but NOT exported / typed (such programs are counted as outside, never judged by the Python tir.typ alone): '
-                 'TableAggregateByKey / TableKeyByAndAggregate (collect_by_key, foreign-key matrix joins), the localize-entries pipeline of '
+                 'TableAggregateByKey and aggregators other than Sum (collect_by_key, foreign-key matrix joins), MatrixUnionRows (needs a backend) / MatrixUnionCols, the localize-entries pipeline of '
                  'MatrixTable-to-MatrixTable index_entries (CastMatrixToTable, TableRename, ...), TableGetGlobals (index_globals), is_sorted key_by.',
     partial=True,
 )
